@@ -11,6 +11,9 @@ var checks = map[string]func(*Ctx){
 	"C12":    runC12,
 	"C13":    runC13,
 	"C10":    runC10,
+	"C06":    runC06,
+	"C07":    runC07,
+	"C05":    runC05,
 	"C01":    runC01,
 	"C04":    runC04,
 	"C11":    runC11,
